@@ -31,7 +31,7 @@ Theorem C02_one_batch_appends :
                e <> ExValue) \/
     (exists i sc1 m, next_sampler LossV agent_actions (sch _ _ _ (live _ _ _ s)) = Some (i, sc1) /\
         nth_error (sched_samplers _ sc1) i = Some m /\
-        appended_batch _ _ _ model lossf draws (live _ _ _ s) (live _ _ _ s') m /\
+        appended_batch _ _ _ model lossf propose draws (live _ _ _ s) (live _ _ _ s') m /\
         (o = Done \/ o = Converged \/ o = Raised ExValue \/ o = Raised ExOther) /\
         (disk _ _ _ s' = disk _ _ _ s \/ disk _ _ _ s' = Some (live _ _ _ s'))).
 Proof. exact one_batch_cases. Qed.
@@ -76,3 +76,21 @@ Theorem C02_labels_consecutive :
     ConsecS Param Series LossV (run Param Series LossV model lossf loss_leb rounds0 propose draws agent_actions plan ops s0).
 Proof. exact reachable_labels_consecutive. Qed.
 Print Assumptions C02_labels_consecutive.
+
+(* Layering with C03/C12/C17: when `propose` is the built-in sampler model (last step snap or grid index, then the
+   de-duplication loop), for ANY pre-snap computation, internal sampler state, class and pass budget, the alignment invariant
+   holds in every reachable state with no hypothesis on the samplers left. *)
+From BlackIt Require Import Model.Dedup Model.Samplers Proofs.SamplersP Proofs.CalibLinkP.
+Theorem C02_builtin_samplers_aligned :
+  forall Series LossV ltb absdiff grids St raw_of idx_of cls_of state_of budget_of,
+  Forall (fun g : list Z => g <> []) grids ->
+  raw_width_ok grids St (list point * list LossV) raw_of -> idx_ok grids St (list point * list LossV) idx_of ->
+  raw_rows_ok St (list point * list LossV) raw_of -> idx_rows_ok St (list point * list LossV) idx_of ->
+  forall (model : point -> Z -> Series) lossf loss_leb rounds0 draws agent_actions plan cfg0 samplers scheduler s0 ops,
+    construct point Series LossV cfg0 samplers scheduler = inl s0 ->
+    InvS point Series LossV model lossf draws (c_E cfg0)
+         (run point Series LossV model lossf loss_leb rounds0
+              (builtin_propose LossV ltb absdiff grids St raw_of idx_of cls_of state_of budget_of)
+              draws agent_actions plan ops s0).
+Proof. intros. eapply reachable_aligned; [|eassumption]. intros. now apply builtin_propose_len. Qed.
+Print Assumptions C02_builtin_samplers_aligned.
